@@ -1,4 +1,6 @@
 ---- MODULE MC_System ----
 EXTENDS System
 AllKinds == {"NP24", "NP21"}
+Yes == TRUE
+SysForms == {"bin", "cbin", "both"}
 ====
